@@ -80,12 +80,21 @@ def shot(s):
     if s.get("_restate"):
         return _restated_shot(s)
     ws = s.get("winds")
+    wl = winds(ws, s.get("wind_max_factor")) if ws else None
+    if wl and s.get("relabel_seed") is not None:
+        # the caller displays the winds' quantities in units of their choice (<< re-labels in place, magnitudes stay): a physical no-op
+        import random  # pylint: disable=import-outside-toplevel
+        r = random.Random(s["relabel_seed"])
+        for w in wl:
+            w.until_distance << pb.Unit[r.choice(["Inch", "Foot", "Yard", "Mile", "Millimeter", "Centimeter", "Meter", "Kilometer", "Line"])]  # pylint: disable=expression-not-assigned
+            w.velocity << pb.Unit[r.choice(["MPS", "KMH", "FPS", "MPH", "KT"])]  # pylint: disable=expression-not-assigned
+            w.direction_from << pb.Unit[r.choice(["Radian", "Degree", "MOA", "Mil", "MRad", "Thousandth", "OClock"])]  # pylint: disable=expression-not-assigned
     return Shot(weapon=weapon(s), ammo=ammo(s),
                 look_angle=Angular.Degree(s.get("look_deg", 0.0)),
                 relative_angle=Angular.Degree(s.get("rel_deg", 0.0)),
                 cant_angle=Angular.Degree(s.get("cant_deg", 0.0)),
                 atmo=atmo(s.get("atmo", {"kind": "icao", "alt_ft": 0.0})),
-                winds=winds(ws, s.get("wind_max_factor")) if ws else None)
+                winds=wl)
 
 
 # ----------------------------------------------------------------------------- long-lived-session mode
